@@ -152,9 +152,9 @@ void run_c03(const char* type) {
     if (W <= 8) { for (uint64_t a = 0; a <= full; ++a) for (uint64_t b = 0; b <= full; ++b) pairs.push_back({a, b}); }
     else {
         std::vector<uint64_t> core;
-        { auto all = mask_patterns<W>(opt().seed, false); uint64_t step = std::max<uint64_t>(1, all.size() / (big ? 600 : 150)); for (uint64_t i = 0; i < all.size(); i += step) core.push_back(all[i]); core.push_back(0); core.push_back(full); core.push_back(1); core.push_back(full >> 1); core.push_back(full & ~1ull); }
+        { auto all = mask_patterns<W>(opt().seed, false); uint64_t step = std::max<uint64_t>(1, all.size() / (big ? 300 : 150)); for (uint64_t i = 0; i < all.size(); i += step) core.push_back(all[i]); core.push_back(0); core.push_back(full); core.push_back(1); core.push_back(full >> 1); core.push_back(full & ~1ull); }
         std::vector<uint64_t> lhs = pats;
-        if (lhs.size() > (big ? 65536u : 4096u)) { std::vector<uint64_t> t; uint64_t step = lhs.size() / (big ? 65536 : 4096); for (uint64_t i = 0; i < lhs.size(); i += step) t.push_back(lhs[i]); lhs = t; }
+        if (lhs.size() > (big ? 16384u : 4096u)) { std::vector<uint64_t> t; uint64_t step = lhs.size() / (big ? 16384 : 4096); for (uint64_t i = 0; i < lhs.size(); i += step) t.push_back(lhs[i]); lhs = t; }
         for (uint64_t a : lhs) for (uint64_t b : core) { pairs.push_back({a, b}); pairs.push_back({b, a}); }
         for (uint64_t a : lhs) { pairs.push_back({a, a}); pairs.push_back({a, full & ~a}); }
     }
@@ -264,7 +264,7 @@ void run_c03(const char* type) {
         if (begin_cell("C03", type, "insert")) {
             Cell& c = cell();
             std::vector<uint64_t> ip = pats;
-            if (ip.size() * W > (big ? 40000000u : 1500000u)) { std::vector<uint64_t> t; uint64_t step = ip.size() * W / (big ? 40000000 : 1500000) + 1; for (uint64_t i = 0; i < ip.size(); i += step) t.push_back(ip[i]); t.push_back(0); t.push_back(full); ip = t; }
+            if (ip.size() * W > (big ? 8000000u : 1500000u)) { std::vector<uint64_t> t; uint64_t step = ip.size() * W / (big ? 8000000 : 1500000) + 1; for (uint64_t i = 0; i < ip.size(); i += step) t.push_back(ip[i]); t.push_back(0); t.push_back(full); ip = t; }
             for (uint64_t a : ip) {
                 for (unsigned i = 0; i < W && c.traps < 1000; ++i) for (int b = 0; b < 2; ++b) {
                     uint64_t got = 0; volatile bool ok = false; uint32_t cls = mcls(a, full) | (b ? 0x10 : 0x20) | (((a >> i) & 1) ? 0x100 : 0x200);
